@@ -237,17 +237,15 @@ Proof.
   unfold meth_filter. rewrite sig_filter_subst; auto.
 Qed.
 
-(* ... and NOT in general: byte / uint8 (recorded finding dce-unexported-method-byte-uint8-spelling-mismatch) *)
+(* ... and since the repair of dce-unexported-method-byte-uint8-spelling-mismatch (filterGen.Type prints the canonical
+   name of byte / rune) the historic witness agrees as well: *)
 Definition sig_write_byte : msig := {| ms_params := TCons (TSlice (TBasic BByte)) TNil; ms_variadic := false; ms_results := TCons (TBasic BRune) TNil |}.
 Definition sig_write_uint8 : msig := {| ms_params := TCons (TSlice (TBasic BUint8)) TNil; ms_variadic := false; ms_results := TCons (TBasic BInt32) TNil |}.
 
-Theorem method_filter_refuted : exists s s',
-  sig_identical s' (sig_subst TNil s) = true /\ sig_wf s = true /\
-  meth_filter [] "main" "write" s' <> meth_filter [] "main" "write" s.
-Proof.
-  exists sig_write_uint8, sig_write_byte. split; [reflexivity|]. split; [reflexivity|].
-  vm_compute. discriminate.
-Qed.
+Theorem method_filter_alias_witness_agrees :
+  sig_identical sig_write_uint8 (sig_subst TNil sig_write_byte) = true /\ sig_wf sig_write_byte = true /\
+  meth_filter [] "main" "write" sig_write_uint8 = meth_filter [] "main" "write" sig_write_byte.
+Proof. split; [reflexivity|]. split; reflexivity. Qed.
 
 (* ------------------------------------------------------------------------ *)
 (* The recorder covers the references                                         *)
